@@ -361,6 +361,22 @@ class Model:
                 body.append(f'        self.{n} = {n}')
             if s.get('extra'):
                 body.append('        self._yatiml_extra = _yatiml_extra if _yatiml_extra is not None else OrderedDict()')
+            if s.get('yattrs'):
+                # a user-written _yatiml_attributes(): the dump is whatever it returns
+                pairs = ', '.join(f'({n!r}, self.{n})' for n in names)
+                rpairs = ', '.join(f'({n!r}, self.{n})' for n in reversed(names))
+                if s['yattrs'] == 'stored':
+                    body.append(f'        self.attrs_cache = OrderedDict([{pairs}])')
+                body.append('    def _yatiml_attributes(self):')
+                if s['yattrs'] == 'stored':
+                    body.append('        return self.attrs_cache')
+                elif s['yattrs'] == 'reversed':
+                    body.append(f'        _d = OrderedDict([{rpairs}])')
+                    if s.get('extra'):
+                        body.append('        _d.update(self._yatiml_extra)')
+                    body.append('        return _d')
+                else:       # 'noextra': the constructor parameters only
+                    body.append(f'        return OrderedDict([{pairs}])')
             if s.get('abstract') == 'method':
                 body.append('    @abc.abstractmethod')
                 body.append('    def _verif_abstract(self):')
